@@ -81,3 +81,10 @@ func (r *rng) block16() []byte {
 	}
 	return b
 }
+
+func min(a, b int) int {
+	if a < b {
+		return a
+	}
+	return b
+}
